@@ -249,4 +249,7 @@ def retrieve_u(params):
                           r'Delete one value and update your standard type!')
     elif not np.isnan(params["u_w_per_mk"]):
         params["u_w_per_m2k"] = params["u_w_per_mk"] / (params["outer_diameter_mm"] * np.pi) * 1000.
+    elif np.isnan(params["u_w_per_m2k"]):
+        # std type without a heat transfer value: no heat loss, like create_pipe_from_parameters
+        params["u_w_per_m2k"] = 0.
     return params
